@@ -3,7 +3,7 @@ import json
 import pickle
 import warnings
 from collections import Counter
-from copy import deepcopy
+from copy import copy, deepcopy
 from dataclasses import asdict, dataclass, field
 from itertools import chain
 from pathlib import Path
@@ -1073,11 +1073,15 @@ class BaseDAGExecution(Generic[P, RVDAG]):
         if self.executed:
             raise TawaziUsageError("DAGExecution object has already been executed.")
 
+        # the results the scheduler starts from: the DAG's own (constants, setup) ...
+        self._start_results = self.dag.results
         if self.from_cache:
             with open(self.from_cache, "rb") as f:
                 cached_results = pickle.load(f)  # noqa: S301
-            for node in self.cached_nodes:
-                self.results = cached_results[node.id]
+            # ... completed by every result found in the cache: these nodes won't be executed again
+            self._start_results = copy(self.dag.results)
+            for node_id, result in cached_results.items():
+                self._start_results.force_set(node_id, result)
 
     def _post_call(self) -> RVDAG:
         # mark as executed. Important for the next step
@@ -1121,7 +1125,7 @@ class DAGExecution(BaseDAGExecution[P, RVDAG]):
 
         # 2. Execute the scheduler
         self.xn_dict, self.results, self.profiles = self.dag.run_subgraph(
-            self.graph, self.results, *args
+            self.graph, self._start_results, *args
         )
 
         return self._post_call()
@@ -1156,7 +1160,7 @@ class AsyncDAGExecution(BaseDAGExecution[P, RVDAG]):
 
         # 2. Execute the scheduler
         self.xn_dict, self.results, self.profiles = await self.dag.run_subgraph(
-            self.graph, self.results, *args
+            self.graph, self._start_results, *args
         )
 
         return self._post_call()
